@@ -560,3 +560,29 @@ example : components (Bin.ofInts 3 3 [1, 1, 1, 1, 1, 1, 1, 1, 1]) true = 1 ∧
     (thinModel (Bin.ofInts 3 3 [1, 1, 1, 1, 1, 1, 1, 1, 1])).count < 9 ∧
     components (thinModel (Bin.ofInts 3 3 [1, 1, 1, 1, 1, 1, 1, 1, 1])) true = 1 := by
   decide +kernel
+
+/-- **The oracle's count is the cardinality of the set of components**: `components b true` (the flood-fill counter the
+check evaluates on inputs and real outputs) equals `Nat.card (Comps (bset b))`, the number of classes of 8-connectivity
+on the pixel set — for every image. (From the system of distinct representatives of `C15_components_count_pixels`: the
+map `s ↦ ⟦pxOf s⟧` from the seeds to the components is a bijection.) With `C15_thin_same_number_of_components` this is
+`components (thin b) = components b` once more, now through the quotient. -/
+theorem C15_components_eq_card (b : Bin) : components b true = Nat.card (Comps (bset b)) := by
+  obtain ⟨seeds, hnd, hlen, hmem, huniq⟩ := C15_components_count_pixels b
+  have hcard : Nat.card {s : Nat // s ∈ seeds} = seeds.length := by
+    rw [← List.toFinset_card_of_nodup hnd, ← Fintype.card_coe, ← Nat.card_eq_fintype_card]
+    exact Nat.card_congr (Equiv.subtypeEquivRight (by simp))
+  rw [← hlen, ← hcard]
+  refine Nat.card_congr (Equiv.ofBijective
+    (fun s : {s : Nat // s ∈ seeds} => (Quotient.mk (compSetoid (bset b)) ⟨pxOf b.cols s.1, (hmem s.1 s.2).2⟩ :
+      Comps (bset b))) ⟨?_, ?_⟩)
+  · intro s t hst
+    have hc : Conn (bset b) (pxOf b.cols s.1) (pxOf b.cols t.1) := Quotient.exact hst
+    obtain ⟨u, _, hu⟩ := huniq (pxOf b.cols t.1) (hmem t.1 t.2).2
+    have h1 := hu s.1 ⟨s.2, hc⟩
+    have h2 := hu t.1 ⟨t.2, Conn.refl _⟩
+    exact Subtype.ext (h1.trans h2.symm)
+  · intro q
+    induction q using Quotient.ind with
+    | _ p =>
+      obtain ⟨s, ⟨hs, hc⟩, _⟩ := huniq p.1 p.2
+      exact ⟨⟨s, hs⟩, Quotient.sound hc⟩
